@@ -120,6 +120,12 @@ func profileConfig(p string, seed uint64) RunConfig {
 		c.Steps = 15 + r.IntN(30)
 		c.NSMF = 1 + r.IntN(2)
 		c.PSFirst = pick(r, 0, 90, 100)
+		c.AutoAnswer = r.IntN(2) == 0
+		if r.IntN(3) == 0 {
+			// slow data plane against short PFCP timers: timers fire inside event-loop turns
+			c.RetransMs = 137
+			c.KernLatency = pick(r, 40, 150)
+		}
 	}
 	return c
 }
@@ -199,7 +205,7 @@ func newGen(s *Sim) *Gen {
 		g.perioOK = true
 		g.mass = 1
 		g.massPeriod = 1
-		g.w = map[string]int{"est": 14, "modurr": 2, "advshort": 6, "krepburst": 4, "reassoc": 3, "del": 3, "hb": 2}
+		g.w = map[string]int{"est": 14, "modurr": 2, "advshort": 6, "krepburst": 4, "reassoc": 3, "del": 3, "hb": 2, "armans": 4, "krep": 3}
 	case "C07":
 		g.mode = "wild"
 		g.perioOK = true
@@ -494,7 +500,7 @@ func (g *Gen) rule(kind string, id uint32, update bool) RuleIntent {
 		if !update || g.chance(0.4) {
 			r.Method = u8p(uint8(1 + g.intn(7)))
 		}
-		if !update {
+		if !update || (g.mode == "wild" && g.chance(0.5)) {
 			var t uint32
 			r.TrigLen = pick(g.rng, 2, 3)
 			if g.rich {
@@ -506,6 +512,9 @@ func (g *Gen) rule(kind string, id uint32, update bool) RuleIntent {
 			if g.perioOK && g.chance(0.5) {
 				t |= 1
 				r.Period = u32p(uint32(pick(g.rng, 1, 2, 3, 5, 10)))
+				if g.s.cfg.Profile == "C07" && g.chance(0.25) {
+					r.Period = u32p(uint32(pick(g.rng, 0, 0, 0xffffffff, 0x80000000))) // extreme values
+				}
 			} else if g.chance(0.2) {
 				r.Period = u32p(uint32(pick(g.rng, 1, 7, 60)))
 			}
@@ -984,6 +993,8 @@ func (g *Gen) one() (Action, bool) {
 		return a, ok
 	case "ans":
 		return Action{Op: "ans", Ans: &AnsIntent{Idx: g.intn(4), Mode: pick(g.rng, "ok", "ok", "ok", "wrongpeer", "wrongseq", "seid0")}}, true
+	case "armans":
+		return Action{Op: "armans", Ans: &AnsIntent{Idx: g.intn(4), Mode: "ok"}, N: 1 + g.intn(6)}, true
 	case "ansseid0":
 		return Action{Op: "ans", Ans: &AnsIntent{Idx: g.intn(4), Mode: "seid0"}}, true
 	case "gtpuerr":
